@@ -50,7 +50,7 @@ def run(rec):
         for chem in flag_maps(ns, nc, rec.tier):
             items.append((netname, sd, chem, "tauleap"))
             items.append((netname, sd, chem, "gillespie"))
-    rec.parallel(_work, items)
+    rec.parallel(_work, items, item_budget_s=240 if rec.tier == "quick" else 900)
     from . import C03_py
     C03_py.run(rec)
 
